@@ -1,11 +1,15 @@
 (* Properties_C07 -- equality / hashing.  Statements only.
-   PARTIAL: what is proved here is what does NOT participate in equality and hashing
-   (source ranges, metadata), the float corner cases, and the seed/fold facts; the
-   equivalence-relation and equal=>hash-equal theorems over arbitrary trees are not yet
-   proved and are carried by the correspondence check + oracles (all pairs/triples/histories). *)
+   PARTIAL: proved: (1) source ranges and metadata do not participate in equality or hashing,
+   the float corner cases; (2) on the fragment without sets, maps and external values (scalars,
+   big numbers, strings, symbols, keywords, lists, vectors, tagged values, nested below the
+   depth cap) equality is "same normal form": reflexive, symmetric, transitive, and equal values
+   hash alike -- for nodes whose cached hashes are coherent (0 or the computed hash), which is
+   the state the library maintains; (3) the unrestricted reflexivity statement is refuted at
+   the depth cap (finding K10).  Sets, maps, external values and history-independence are
+   carried by the correspondence check + oracles (all pairs/triples/histories). *)
 From Coq Require Import ZArith NArith List Bool.
 From Coq.Floats Require Import SpecFloat.
-From Verif Require Import Lanes Common Values Floats Equality EqBasics.
+From Verif Require Import Lanes Common Values Floats Equality EqBasics EqEquiv Configs.
 Import ListNotations.
 
 Section C07.
@@ -28,8 +32,43 @@ Theorem C07_nan_and_zeros :
   float_eq S754_nan S754_nan = true /\ float_eq (S754_zero false) (S754_zero true) = true /\
   float_hash_bits (S754_zero false) = float_hash_bits (S754_zero true).
 Proof. exact nan_and_zeros. Qed.
+Theorem C07_equivalence_partial : forall a b d,
+  simple c a -> coherent c xh a -> coherent c xh b -> coherent c xh d ->
+  equal c xe a a = true /\
+  (equal c xe a b = true -> equal c xe b a = true) /\
+  (equal c xe a b = true -> equal c xe b d = true -> equal c xe a d = true).
+Proof.
+  exact (fun a b d Hs Ha Hb Hd => conj (equal_refl c xe xh a Hs Ha)
+           (conj (equal_sym c xe xh a b Hs Ha Hb) (equal_trans c xe xh a b d Hs Ha Hb Hd))).
+Qed.
+
+Theorem C07_equal_values_hash_alike_partial : forall a b,
+  simple c a -> coherent c xh a -> coherent c xh b ->
+  equal c xe a b = true -> hash_value c xh a = hash_value c xh b.
+Proof. exact (equal_same_hash c xe xh). Qed.
+
+(* equality is exactly "same normal form" on the fragment *)
+Theorem C07_equal_iff_same_normal_form_partial : forall f a b va,
+  nf c f a = Some va -> cache_ok c xh f a -> cache_ok c xh f b ->
+  (equal_fuel c xe f a b = true <-> nf c f b = Some va).
+Proof. exact (equal_iff_nf c xe xh). Qed.
 End C07.
+
+(* the unrestricted statement "two structurally identical values are equal" is false of the
+   code as it stands: two copies of a vector nested 100 deep (finding K10); one level less is fine *)
+Theorem C07_reflexive_refuted :
+  equal cfg00 (fun _ => None) (deep 100) (deep 100) = false /\ equal cfg00 (fun _ => None) (deep 99) (deep 99) = true.
+Proof. split; vm_compute; reflexivity. Qed.
+
+(* non-vacuity of the fragment: a nested value with a list, a vector, a tagged value and strings *)
+Example C07_fragment_inhabited :
+  simple cfg00 (mk (VList [mk (VVector [mk (VInt 1) 0 0; mk (VString [] false None) 0 0]) 0 0;
+                           mk (VTagged [] (mk (VKeyword None []) 0 0)) 0 0]) 0 0).
+Proof. eexists. vm_compute. reflexivity. Qed.
 
 Print Assumptions C07_metadata_not_in_equality.
 Print Assumptions C07_metadata_not_in_hash.
 Print Assumptions C07_nan_and_zeros.
+Print Assumptions C07_equivalence_partial.
+Print Assumptions C07_equal_values_hash_alike_partial.
+Print Assumptions C07_reflexive_refuted.
